@@ -172,6 +172,43 @@ func sandbox(ctx *core.Ctx, bin string) {
 		}
 		ctx.Distinct("newglobal|" + src)
 	}
+	// (3b) the same on interpreter states created on demand: one SCAN with ten
+	// WHEREEVAL clauses holds ten states at once (more than the initial pool);
+	// the first five clauses are harmless, the others try to create a global.
+	c.Do("SET", "sbx", "o1", "FIELD", "f", "1", "POINT", "1", "1")
+	{
+		cmd := []string{"SCAN", "sbx"}
+		for i := 0; i < 5; i++ {
+			cmd = append(cmd, "WHEREEVAL", "return true", "0")
+		}
+		for i := 6; i <= 10; i++ {
+			cmd = append(cmd, "WHEREEVAL", fmt.Sprintf("gx%d = 1; return true", i), "0")
+		}
+		cmd = append(cmd, "IDS")
+		rep, err := c.Do(cmd...)
+		if err != nil {
+			ctx.Inconclusive("i/o: " + err.Error())
+			return
+		}
+		ctx.Eval(1)
+		// now hold ten states again and ask each whether it sees a leaked global
+		probe := []string{"SCAN", "sbx"}
+		for i := 0; i < 10; i++ {
+			probe = append(probe, "WHEREEVAL", "return gx6 == nil and gx7 == nil and gx8 == nil and gx9 == nil and gx10 == nil", "0")
+		}
+		probe = append(probe, "IDS")
+		pr, err := c.Do(probe...)
+		if err != nil {
+			ctx.Inconclusive("i/o: " + err.Error())
+			return
+		}
+		clean := pr.Kind == '*' && len(pr.Arr) == 2 && len(pr.Arr[1].Arr) == 1
+		if !clean {
+			ctx.Violation("sandbox:global-created:on-demand-state", fmt.Sprintf("scripts running on interpreter states beyond the initial pool (ten WHEREEVAL clauses in one SCAN, reply %s) created globals that later scripts on the pooled states see (probe reply %s)", rep.String(), pr.String()), nil)
+			return
+		}
+		ctx.Distinct("newglobal|on-demand-states")
+	}
 	// (4) a call's KEYS/ARGV/EVAL_CMD do not survive the call (also on error paths)
 	c.Do("SET", "sbx", "o1", "FIELD", "f", "1", "POINT", "1", "1")
 	leakers := [][]string{
@@ -333,6 +370,120 @@ func readOnly(ctx *core.Ctx, bin string) {
 	}
 	ctx.Count("hostile_ro_scripts", int64(len(scripts)))
 	ctx.Sample(map[string]any{"hostile_readonly_script": scripts[2], "variants": "EVALRO, EVALROSHA"})
+}
+
+// ---------------------------------------------------------------- script writes are logged
+
+// scriptWritesLogged: every write command a script may call, from every script
+// variant, must appear in appendonly.aof (so that restarts and followers
+// reproduce it), and a restart must yield the same dataset.
+func scriptWritesLogged(ctx *core.Ctx, bin string) {
+	s, err := srv.Start(srv.Opts{Bin: bin})
+	if err != nil {
+		ctx.Inconclusive(err.Error())
+		return
+	}
+	defer func() { s.Kill9() }()
+	c, err := conn(s)
+	if err != nil {
+		ctx.Inconclusive(err.Error())
+		return
+	}
+	defer c.Close()
+	type wcase struct {
+		name  string
+		setup [][]string
+		call  string // Lua argument list of tile38.call, @K = key
+	}
+	cases := []wcase{
+		{"set", nil, `'set','@K','a','field','f',7,'point',3,4`},
+		{"del", [][]string{{"SET", "@K", "a", "POINT", "1", "2"}, {"SET", "@K", "b", "POINT", "1", "2"}}, `'del','@K','a'`},
+		{"drop", [][]string{{"SET", "@K", "a", "POINT", "1", "2"}}, `'drop','@K'`},
+		{"fset", [][]string{{"SET", "@K", "a", "POINT", "1", "2"}}, `'fset','@K','a','f',8`},
+		{"expire", [][]string{{"SET", "@K", "a", "POINT", "1", "2"}}, `'expire','@K','a',5000`},
+		{"persist", [][]string{{"SET", "@K", "a", "EX", "5000", "POINT", "1", "2"}}, `'persist','@K','a'`},
+		{"jset", nil, `'jset','@K','a','p',9`},
+		{"pdel", [][]string{{"SET", "@K", "a1", "POINT", "1", "2"}, {"SET", "@K", "b1", "POINT", "1", "2"}}, `'pdel','@K','a*'`},
+		{"rename", [][]string{{"SET", "@K", "a", "POINT", "1", "2"}}, `'rename','@K','@K:to'`},
+		{"renamenx", [][]string{{"SET", "@K", "a", "POINT", "1", "2"}}, `'renamenx','@K','@K:to'`},
+		{"flushdb-free", [][]string{{"SET", "@K", "a", "POINT", "1", "2"}}, `'expire','@K','a',4000`},
+	}
+	logLen := func() int {
+		es, _, _, _ := aoflog.ReadFile(s.AOFPath())
+		return len(es)
+	}
+	for _, variant := range []string{"EVAL", "EVALSHA", "EVALNA", "EVALNASHA"} {
+		for _, wc := range cases {
+			key := "sw:" + strings.ToLower(variant) + ":" + wc.name
+			for _, st := range wc.setup {
+				a := make([]string, len(st))
+				for i, x := range st {
+					a[i] = strings.ReplaceAll(x, "@K", key)
+				}
+				c.Do(a...)
+			}
+			before := logLen()
+			src := "return tile38.call(" + strings.ReplaceAll(wc.call, "@K", key) + ")"
+			var rep respc.Reply
+			if strings.HasSuffix(variant, "SHA") {
+				lr, err := c.Do("SCRIPT", "LOAD", src)
+				if err != nil || lr.IsErr() {
+					ctx.Inconclusive("script load failed")
+					return
+				}
+				rep, err = c.Do(variant, lr.Str, "0")
+			} else {
+				rep, err = c.Do(variant, src, "0")
+			}
+			if err != nil {
+				ctx.Inconclusive("i/o: " + err.Error())
+				return
+			}
+			ctx.Eval(1)
+			if rep.IsErr() {
+				ctx.Count("script_write_rejected:"+wc.name, 1)
+				continue
+			}
+			es, _, okp, err := aoflog.ReadFile(s.AOFPath())
+			if err != nil || !okp {
+				ctx.Inconclusive("cannot parse the log")
+				return
+			}
+			want := strings.SplitN(strings.Trim(strings.SplitN(wc.call, ",", 2)[0], "'"), " ", 2)[0]
+			found := false
+			for _, e := range es[min(before, len(es)):] {
+				if strings.EqualFold(e.Args[0], want) && len(e.Args) > 1 && strings.HasPrefix(e.Args[1], key) {
+					found = true
+				}
+			}
+			if !found {
+				ctx.Violation("script-write-not-logged:"+strings.ToLower(variant)+":"+want, fmt.Sprintf("%s script calling tile38.call(%s) was answered %s but appendonly.aof holds no %s entry for %s", variant, strings.ReplaceAll(wc.call, "@K", key), rep.String(), want, key), map[string]any{"variant": variant, "call": wc.call})
+				continue
+			}
+			ctx.Distinct("scriptlog|" + variant + "|" + wc.name)
+		}
+	}
+	before, err := dump.Take(s.Addr(), dump.Opts{})
+	if err != nil {
+		ctx.Inconclusive(err.Error())
+		return
+	}
+	c.Close()
+	s.Kill9()
+	s2, err := s.Restart()
+	if err != nil {
+		ctx.Violation("script-write-restart-fails", "server does not restart after the script-write matrix: "+err.Error(), nil)
+		return
+	}
+	s = s2
+	after, err := dump.Take(s2.Addr(), dump.Opts{})
+	if err != nil {
+		ctx.Inconclusive(err.Error())
+		return
+	}
+	if d := dump.Diff(before, after); d != "" {
+		ctx.Violation("script-write-lost-on-restart", "dataset after restart differs from the dataset the scripts produced (A=before B=after): "+d, nil)
+	}
 }
 
 // ---------------------------------------------------------------- atomicity
@@ -719,6 +870,7 @@ func Run(ctx *core.Ctx) {
 	}
 	sandbox(ctx, bin)
 	readOnly(ctx, bin)
+	scriptWritesLogged(ctx, bin)
 	var wg sync.WaitGroup
 	sem := make(chan struct{}, 4)
 	for i := 0; i < ctx.Pick(8, 150); i++ {
